@@ -159,6 +159,20 @@ def g(F, X):
         v = bool(fat and capm and re.search(r"end_processing_flag\s*\.\s*store\s*\(\s*true", capm.group(1)))
     F.add("proto_ctrl_raises_stop", "bool", v, True, "controller.rs update: Fatal arm and `err_count() == max_tolerate_errors` store true into the stop flag")
 
+    # 12. the signal handler: the stop flag is stored unconditionally; the process is exited only on the handler's own
+    #     second invocation (a counter of its own), never depending on the value the stop flag already had
+    ul = X.strip_comments(X.read(X.FP + "/util/lib.rs"))
+    body = X.fn_body(ul, "init_ctrlc_handler")
+    v = None
+    if body:
+        stores = bool(re.search(r"stop_flag\s*\.\s*store\s*\(\s*true", body))
+        reads_flag = bool(re.search(r"stop_flag\s*\.\s*(swap|load|fetch_or|fetch_and|compare_exchange\w*)\s*\(", body))
+        m = re.search(r"if\s+([A-Za-z_][A-Za-z0-9_]*)\s*>\s*1\s*\{[^}]*process\s*::\s*exit", body)
+        own = bool(m and re.search(re.escape(m.group(1)) + r"\s*\+=\s*1", body))
+        exits = "exit" in body
+        v = stores and not reads_flag and (own or not exits)
+    F.add("proto_handler_own_counter", "bool", v, True, "util/lib.rs init_ctrlc_handler: stores the flag, and process::exit only under `if <own counter> > 1`")
+
 
 def register(X, EXTRA):
     EXTRA.append(lambda F: g(F, X))
